@@ -9,6 +9,7 @@ import Driver.Seek
 import Driver.Vgm
 import Driver.Conv
 import Driver.Wave
+import Driver.MdsData
 open Driver
 
 def allHandlers : List Handler :=
@@ -18,6 +19,7 @@ def allHandlers : List Handler :=
   ++ VgmD.handlers
   ++ ConvD.handlers
   ++ WaveD.handlers
+  ++ MdsDataD.handlers
 
 def answerModel (cmd arg : String) : String :=
   match allHandlers.find? (·.cmd == cmd) with
